@@ -1,6 +1,6 @@
 (* Model/MbiBcaModel.v -- C01 extension: the BCA / FCF based Master Boot Images (mc56f81xxx, mwct20xx, mcxc families).
    Built on the frozen definitions of MbiModel.v (class = image type + mixin list, stage dispatch = Python MRO through
-   `provider`, device data from Gen/GenMbi.v).  Faithful to the CURRENT code.  Definitions only.
+   `provider`, device data from Gen/GenMbi.v).  Faithful to the CURRENT code (findings C01-F13..F16 repaired).  Definitions only.
 
    What is new with respect to MbiModel.v:
    - an image is a BinaryImage with sub-images at FIXED offsets (spsdk/utils/images.py): export() draws every sub-image
@@ -36,7 +36,8 @@ Record bcrypto : Type := { q_sign : list N -> list N; q_hash : list N -> list N 
 Record bparse : Type := {
   p_pub_ok : list N -> bool;               (* convert_to_ecc_key accepts the 64 key bytes *)
   p_bca : list N -> option (list N);       (* BCA.parse(data).export(); None: SPSDKError (wrong tag, too short) *)
-  p_fcf : list N -> list N                 (* FCF.parse(data).export() for >= 16 bytes *)
+  p_fcf : list N -> list N;                (* FCF.parse(data).export() for >= 16 bytes *)
+  p_cert_hash : list N -> list N           (* CertBlockVx.cert_hash of the parsed certificate: SHA-256(export)[:16] *)
 }.
 
 (* ------------------------------------------------------------------ BinaryImage with sub-images at fixed offsets *)
@@ -103,18 +104,22 @@ Definition validate_b (c : mbi_class) (x : bx) : res unit :=
 
 Definition update_bca (x : bx) (data : list N) (total : Z) : res (list N) :=
   bind (u32 total) (fun wl => bind (u32 (b_fwver x)) (fun wf => Ok (splice (splice data O_BCA_LEN wl) O_BCA_FW wf))).
-Definition update_fcf (x : bx) (data : list N) : list N :=
-  if b_lifecycle x =? 255 then data else splice data O_LC [Z.to_N (b_lifecycle x)].
+(* a life cycle cannot be set when the application ends before the life-cycle byte (repaired: was appended at the end) *)
+Definition update_fcf (x : bx) (data : list N) : res (list N) :=
+  if b_lifecycle x =? 255 then Ok data
+  else if Nat.leb (length data) O_LC then Err E_REJECT
+  else Ok (splice data O_LC [Z.to_N (b_lifecycle x)]).
 
 Definition collect_b (c : mbi_class) (x : bx) : res oimage :=
   match provider c SCollect with
   | Some ExportMixinAppFcf =>
-      match b_app x with [] => Err E_REJECT | _ => Ok (slices (update_fcf x (b_app x)) false) end
+      match b_app x with [] => Err E_REJECT | _ => bind (update_fcf x (b_app x)) (fun b => Ok (slices b false)) end
   | Some ExportMixinAppBcaFcf =>
       match b_app x with
       | [] => Err E_REJECT
-      | _ => bind (update_bca x (b_app x) (total_len_b c x)) (fun b =>
-             Ok (slices (update_fcf x b) (has c MixinCertBlockVx && b_justhdr x)))
+      | _ => if Nat.ltb (length (b_app x)) O_DATA then Err E_REJECT   (* repaired: the whole header area is required *)
+             else bind (update_bca x (b_app x) (total_len_b c x)) (fun b =>
+                  bind (update_fcf x b) (fun b' => Ok (slices b' (has c MixinCertBlockVx && b_justhdr x))))
       end
   | Some ExportMixinApp =>
       match b_app x with
@@ -145,6 +150,7 @@ Definition sign_b (k : bcrypto) (c : mbi_class) (x : bx) (im : oimage) : res oim
       match obinary im I_BCA with
       | [] => Err E_REJECT                                   (* "Boot Config Area is missing" *)
       | bca =>
+          if Nat.ltb (length bca) 16 then Err E_REJECT else     (* repaired: "Boot Config Area is incomplete" *)
           let body := skipn O_DATA input in
           bind (u32 (Z.of_N (mbi_crc32_mpeg body))) (fun wc =>
           bind (u32 G_BCA_IMG_DATA_START) (fun ws =>
@@ -184,6 +190,9 @@ Definition set_b_fwver (x : bx) (v : Z) : bx :=
 Definition set_b_cert (x : bx) (v : option (list N * list N)) : bx :=
   {| b_app := b_app x; b_lifecycle := b_lifecycle x; b_fwver := b_fwver x; b_cert := v; b_addhash := b_addhash x;
      b_justhdr := b_justhdr x; b_bca := b_bca x; b_fcf := b_fcf x |}.
+Definition set_b_flags (x : bx) (ah jh : bool) : bx :=
+  {| b_app := b_app x; b_lifecycle := b_lifecycle x; b_fwver := b_fwver x; b_cert := b_cert x; b_addhash := ah;
+     b_justhdr := jh; b_bca := b_bca x; b_fcf := b_fcf x |}.
 Definition set_b_bca (x : bx) (v : option (list N)) : bx :=
   {| b_app := b_app x; b_lifecycle := b_lifecycle x; b_fwver := b_fwver x; b_cert := b_cert x; b_addhash := b_addhash x;
      b_justhdr := b_justhdr x; b_bca := v; b_fcf := b_fcf x |}.
@@ -210,7 +219,12 @@ Definition mix_parse_b (q : bparse) (data : list N) (m : mixin) (st : bx) : res 
       let d := skipn O_ISK data in
       if Nat.ltb (length d) 8 then Err E_CRASH                  (* struct.unpack_from *)
       else let pub := sub d 8 72 in
-           if p_pub_ok q pub then Ok (set_b_cert st (Some (isk_header (rd32 4 d) ++ pub ++ sub d 72 136, [])))
+           if p_pub_ok q pub
+           then let cb := isk_header (rd32 4 d) ++ pub ++ sub d 72 136 in
+                (* repaired: add_hash / just_header are restored from the image *)
+                Ok (set_b_flags (set_b_cert st (Some (cb, [])))
+                                (list_eqb N.eqb (sub data O_ISKH (O_ISKH + natz G_BCA_IMG_ISK_HASH_SIZE)) (p_cert_hash q cb))
+                                (Nat.leb (length data) O_DUK))
            else Err E_REJECT
   | MixinBca => Ok (set_b_bca st (p_bca q (skipn X_BCA data)))
   | MixinFcf =>
@@ -275,9 +289,10 @@ Definition dec_bcrypto (v : value) : option bcrypto :=
   end.
 Definition dec_bparse (v : value) : option bparse :=
   match v with
-  | VList [VInt ok; bcav; VBytes fcf] =>
+  | VList [VInt ok; bcav; VBytes fcf; VBytes ch] =>
       match dec_opt_bytes bcav with
-      | Some bca => Some {| p_pub_ok := fun _ => dec_bool ok; p_bca := fun _ => bca; p_fcf := fun _ => fcf |}
+      | Some bca => Some {| p_pub_ok := fun _ => dec_bool ok; p_bca := fun _ => bca; p_fcf := fun _ => fcf;
+                            p_cert_hash := fun _ => ch |}
       | None => None
       end
   | _ => None
